@@ -173,10 +173,17 @@ CLAIMED = {
             "where adjoint means inverse' are lemma consequences proved by explicit induction (base + step); z3",
             "For every list length and every real scale factor >= 1 (incl. the edge cases k == 0 and k == n): number of global "
             "folds floor((lambda-1)/2), partial fold count round_half_even(frac*n/2), exact shape and length of the folded "
-            "circuit, and equality of its product with the original circuit's; channels are rejected.",
+            "circuit, and equality of its product with the original circuit's; channels are rejected. _polyfit / "
+            "poly_extrapolate / richardson_extrapolate: the real bodies on exact symbolic abscissae and polynomial coefficients "
+            "return the model polynomial's coefficients and f(0) as rational functions for 7 (points, order) shapes "
+            "(size-bounded; pinv/inv as an assumed inverse contract valid for a round-off-level cut-off). Bounded native "
+            "stand-ins (never counted as proved): fold_global on every fold-count cell for n <= 5, the four extrapolators in "
+            "binary64 on model data, add_noise (requested channels at the selected positions, each measurement carried once, "
+            "post-processing order, zero strength equals noiseless; 2544 real runs).",
             "A-float-as-real for lambda; adjoint(op) is the inverse of op (C03) and tape.copy(ops=...) are assumed; the "
-            "reversed-slice model is cross-checked against CPython (bounded); extrapolators, add_noise/insert and "
-            "mitigate_with_zne are not covered.",
+            "reversed-slice model (any start/stop) is cross-checked against CPython (bounded); add_noise has no deductive "
+            "obligation (lru_cache, make_qscript and closures are outside E1); insert, the conditionals themselves, "
+            "exponential_extrapolate (symbolically) and mitigate_with_zne are not covered.",
             "DESIGN.md 4 C25", "E1"),
     "C28": ("proof",
             "(1) contract on each built-in channel's compute_kraus_matrices under its own domain guards as path "
